@@ -306,6 +306,10 @@ void list_output_avr8(
 
   fprintf(asm_context->list, "\n");
 
+  // An instruction that follows odd-length data is placed on the next even
+  // address by the assembler; the skipped byte is not part of the instruction.
+  if ((start & 1) != 0) { start++; }
+
   while (start < end)
   {
     count = disasm_avr8(
